@@ -4,6 +4,7 @@ import (
 	"fmt"
 	"go/token"
 	"go/types"
+	"strings"
 
 	"golang.org/x/tools/go/ssa"
 
@@ -714,6 +715,1113 @@ func ruleMatchPos(p *core.Program) []core.Obligation {
 				obs = append(obs, core.Ob(rule, key, p.Pos(ins.Pos()), core.FuncName(fn), core.Held, "position comes from a loop over the list"))
 			}
 		})
+	}
+	return obs
+}
+
+// ---------------------------------------------------------------------------------------------
+
+func init() {
+	register(&Rule{ID: "R-LABELPOS", Min: 3, Run: ruleLabelPos,
+		Doc: "a label set is never accessed at a constant position (l[0], l[1:]): where a label sits depends on the other label names of the series (upper-case names sort before __name__), so the metric name and every other label are found by name or by a loop over the set"})
+
+	mutant(Mutant{Rule: "R-LABELPOS", Name: "metric-name-assumed-first", File: "execution/function/operator.go",
+		Old:    "\treturn dropLabel(l, labels.MetricName)\n",
+		New:    "\tif len(l) == 0 || l[0].Name != labels.MetricName {\n\t\treturn l, labels.Label{}\n\t}\n\treturn l[1:], l[0]\n",
+		Expect: "DropMetricName"})
+}
+
+func ruleLabelPos(p *core.Program) []core.Obligation {
+	const rule = "R-LABELPOS"
+	var obs []core.Obligation
+	isLabels := func(t types.Type) bool {
+		if core.TypeIs(t, pkgLabels, "Labels") {
+			return true
+		}
+		s, ok := t.Underlying().(*types.Slice)
+		return ok && core.TypeIs(s.Elem(), pkgLabels, "Label")
+	}
+	for _, fn := range p.Funcs {
+		k := 0
+		core.EachInstr(fn, func(b *ssa.BasicBlock, i int, ins ssa.Instruction) {
+			bad := ""
+			switch x := ins.(type) {
+			case *ssa.IndexAddr:
+				if !isLabels(x.X.Type()) {
+					return
+				}
+				if _, isMake := x.X.(*ssa.MakeSlice); isMake {
+					return
+				}
+				if c, ok := core.ConstInt(x.Index); ok && !exactLenGuard(fn, x.X, c+1, x) {
+					bad = "indexed at a constant position"
+				}
+			case *ssa.Slice:
+				if !isLabels(x.X.Type()) {
+					return
+				}
+				if x.Low != nil {
+					if c, ok := core.ConstInt(x.Low); ok && c != 0 {
+						bad = "sliced from a constant position"
+					}
+				}
+				if x.High != nil {
+					if c, ok := core.ConstInt(x.High); ok && c != 0 {
+						bad = "cut at a constant position"
+					}
+				}
+			default:
+				return
+			}
+			k++
+			key := fmt.Sprintf("%s accesses a label set #%d", core.FuncName(fn), k)
+			if bad != "" {
+				obs = append(obs, core.Ob(rule, key, p.Pos(ins.Pos()), core.FuncName(fn), core.Violated, "the label set is "+bad+": which label is found there depends on the other label names of the series"))
+			} else {
+				obs = append(obs, core.Ob(rule, key, p.Pos(ins.Pos()), core.FuncName(fn), core.Held, "position comes from a loop or a search over the set"))
+			}
+		})
+	}
+	return obs
+}
+
+// exactLenGuard: use lies on the true branch of len(s) == n (the set has exactly n elements, so its
+// positions are known).
+func exactLenGuard(fn *ssa.Function, s ssa.Value, n int64, use ssa.Instruction) bool {
+	for _, b := range fn.Blocks {
+		iff := core.IfOf(b)
+		if iff == nil {
+			continue
+		}
+		bo, ok := iff.Cond.(*ssa.BinOp)
+		if !ok || bo.Op != token.EQL {
+			continue
+		}
+		lc, ok := bo.X.(*ssa.Call)
+		cv := bo.Y
+		if !ok {
+			lc, ok = bo.Y.(*ssa.Call)
+			cv = bo.X
+		}
+		if !ok {
+			continue
+		}
+		bi, isB := lc.Call.Value.(*ssa.Builtin)
+		if !isB || bi.Name() != "len" || !core.SameExpr(lc.Call.Args[0], s) {
+			continue
+		}
+		if c, ok := core.ConstInt(cv); ok && c == n && core.BranchDominates(b, 0, use.Block()) {
+			return true
+		}
+	}
+	return false
+}
+
+// ---------------------------------------------------------------------------------------------
+
+func init() {
+	register(&Rule{ID: "R-FILLRANGE", Min: 2, Run: ruleFillRange,
+		Doc: "a per-step scratch buffer held in an operator field that one loop of Next fills and a later loop reads is filled for every index the reader uses: the filling loop ranges over the buffer itself or over the very collection the reading loop ranges over (not over another operand's batch, which may be shorter or absent)"})
+
+	mutant(Mutant{Rule: "R-FILLRANGE", Name: "scalar-points-filled-per-scalar-batch", File: "execution/function/operator.go",
+		Old: "\t\tfor batchIndex := range vectors {\n\t\t\tval := math.NaN()\n\t\t\tif len(scalarVectors) > 0 && len(scalarVectors[batchIndex].Samples) > 0 {", New: "\t\tfor batchIndex := range scalarVectors {\n\t\t\tval := math.NaN()\n\t\t\tif len(scalarVectors[batchIndex].Samples) > 0 {", Expect: "scalarPoints"})
+}
+
+// loopCollection returns the collection whose length bounds the loop index idx (idx < len(c)), if any.
+func loopCollection(fn *ssa.Function, idx ssa.Value) ssa.Value {
+	cands := core.PhiClosure(idx)
+	cands[idx] = true
+	// i := phi; i+1 compared ... : also accept the increment of a phi in the closure
+	for _, b := range fn.Blocks {
+		iff := core.IfOf(b)
+		if iff == nil {
+			continue
+		}
+		bo, ok := iff.Cond.(*ssa.BinOp)
+		if !ok || bo.Op != token.LSS {
+			continue
+		}
+		lhs := bo.X
+		match := cands[lhs]
+		if !match {
+			for c := range cands {
+				if add, ok := c.(*ssa.BinOp); ok && add == lhs {
+					match = true
+				}
+			}
+			// idx itself may be the incremented value (range loops): idx == lhs
+		}
+		if !match {
+			// lhs may be the phi whose increment is idx
+			if add, ok := idx.(*ssa.BinOp); ok && add.Op == token.ADD && (add.X == lhs || cands[add.X] && lhs == add.X) {
+				match = true
+			}
+		}
+		if !match {
+			continue
+		}
+		if lc, ok := bo.Y.(*ssa.Call); ok {
+			if bi, ok := lc.Call.Value.(*ssa.Builtin); ok && bi.Name() == "len" {
+				return lc.Call.Args[0]
+			}
+		}
+	}
+	return nil
+}
+
+func ruleFillRange(p *core.Program) []core.Obligation {
+	const rule = "R-FILLRANGE"
+	var obs []core.Obligation
+	for _, fn := range p.Funcs {
+		if fn.Name() != "Next" || recvNamed(fn) == nil || !hasPrefixRel(fn, "execution") {
+			continue
+		}
+		type access struct {
+			ia    *ssa.IndexAddr
+			coll  ssa.Value
+			write bool
+		}
+		byField := map[string][]access{}
+		core.EachInstr(fn, func(b *ssa.BasicBlock, i int, ins ssa.Instruction) {
+			ia, ok := ins.(*ssa.IndexAddr)
+			if !ok {
+				return
+			}
+			addr := core.Deref(ia.X)
+			if addr == nil {
+				return
+			}
+			n, f, base, ok := core.FieldRef(addr)
+			if !ok || n == nil || !rootedAtReceiver(fn, base) {
+				return
+			}
+			if _, isSlice := ia.X.Type().Underlying().(*types.Slice); !isSlice {
+				return
+			}
+			coll := loopCollection(fn, ia.Index)
+			if coll == nil {
+				return
+			}
+			// written: a store through the element address, or through a deeper index of it
+			write, read := false, false
+			var scan func(v ssa.Value, depth int)
+			scan = func(v ssa.Value, depth int) {
+				for _, r := range core.Referrers(v) {
+					switch x := r.(type) {
+					case *ssa.Store:
+						if x.Addr == v {
+							write = true
+						}
+					case *ssa.UnOp:
+						if x.Op == token.MUL {
+							if depth < 2 {
+								// the element is itself a slice: follow one more index level
+								sawDeeper := false
+								for _, rr := range core.Referrers(x) {
+									if ia2, ok := rr.(*ssa.IndexAddr); ok {
+										sawDeeper = true
+										scan(ia2, depth+1)
+									}
+								}
+								if !sawDeeper {
+									read = true
+								}
+							} else {
+								read = true
+							}
+						}
+					}
+				}
+			}
+			scan(ia, 0)
+			key := n.Obj().Name() + "." + f
+			if write {
+				byField[key] = append(byField[key], access{ia, coll, true})
+			}
+			if read {
+				byField[key] = append(byField[key], access{ia, coll, false})
+			}
+		})
+		for field, accs := range byField {
+			var writers, readers []access
+			for _, a := range accs {
+				if a.write {
+					writers = append(writers, a)
+				} else {
+					readers = append(readers, a)
+				}
+			}
+			if len(writers) == 0 || len(readers) == 0 {
+				continue
+			}
+			key := fmt.Sprintf("%s fills %s for every index it reads", core.FuncName(fn), field)
+			bad := ""
+			for _, w := range writers {
+				// the writer ranges over the buffer itself
+				if core.SameExpr(w.coll, w.ia.X) {
+					continue
+				}
+				for _, r := range readers {
+					if r.ia.Block() == w.ia.Block() {
+						continue // same iteration
+					}
+					if !core.SameExpr(w.coll, r.coll) {
+						bad = fmt.Sprintf("filled in a loop over %s (%s) but read in a loop over %s (%s)", w.coll.Name(), p.Pos(w.ia.Pos()), r.coll.Name(), p.Pos(r.ia.Pos()))
+					}
+				}
+			}
+			if bad != "" {
+				obs = append(obs, core.Ob(rule, key, p.Pos(writers[0].ia.Pos()), core.FuncName(fn), core.Violated, bad+": indexes the filling loop does not visit keep the values of an earlier batch (or zero)"))
+			} else {
+				obs = append(obs, core.Ob(rule, key, p.Pos(writers[0].ia.Pos()), core.FuncName(fn), core.Held, "the filling loop covers the reader's index set"))
+			}
+		}
+	}
+	return obs
+}
+
+// ---------------------------------------------------------------------------------------------
+
+func init() {
+	register(&Rule{ID: "R-STEPEVERY", Min: 5, Run: ruleStepEvery,
+		Doc: "in an operator's Next, a per-step loop that appends step vectors to the output batch appends one on every path through an iteration (or leaves the function): no fast path (continue) may skip a step, because consumers pair batches by position. The only accepted skip is the failing branch of a test of an input batch's length (an operand that has ended)"})
+
+	mutant(Mutant{Rule: "R-STEPEVERY", Name: "empty-operand-step-skipped", File: "execution/binary/vector.go",
+		Old: "\t\tif i < len(rhs) {\n\t\t\tstep, err := o.table.execBinaryOperation(lhs[i], rhs[i], o.returnBool)",
+		New: "\t\tif i < len(rhs) {\n\t\t\tif len(lhs[i].Samples) == 0 || len(rhs[i].Samples) == 0 {\n\t\t\t\to.rhs.GetPool().PutStepVector(rhs[i])\n\t\t\t\tcontinue\n\t\t\t}\n\t\t\tstep, err := o.table.execBinaryOperation(lhs[i], rhs[i], o.returnBool)", Expect: "vectorOperator"})
+}
+
+func ruleStepEvery(p *core.Program) []core.Obligation {
+	const rule = "R-STEPEVERY"
+	var obs []core.Obligation
+	for _, fn := range p.Funcs {
+		if fn.Name() != "Next" || fn.Parent() != nil || recvNamed(fn) == nil || !hasPrefixRel(fn, "execution") {
+			continue
+		}
+		loops := core.LoopBodies(fn)
+		depth := core.LoopDepth(fn)
+		k := 0
+		// deterministic order
+		var headers []*ssa.BasicBlock
+		for h := range loops {
+			headers = append(headers, h)
+		}
+		sortBlocks(headers)
+		for _, h := range headers {
+			body := loops[h]
+			if depth[h] != 1 {
+				continue
+			}
+			// appends to a batch directly in this loop (not in a nested loop)
+			appendBlocks := map[*ssa.BasicBlock]bool{}
+			for b := range body {
+				if depth[b] != 1 {
+					continue
+				}
+				for _, ins := range b.Instrs {
+					if call, ok := ins.(*ssa.Call); ok {
+						if bi, ok := call.Call.Value.(*ssa.Builtin); ok && bi.Name() == "append" && isBatchType(call.Type()) {
+							appendBlocks[b] = true
+						}
+					}
+				}
+			}
+			if len(appendBlocks) == 0 {
+				continue
+			}
+			k++
+			key := fmt.Sprintf("%s per-step loop #%d appends a step vector on every path", core.FuncName(fn), k)
+			// batch-length guard: an If comparing something with len(x), x a []StepVector
+			lenGuardFalse := func(b *ssa.BasicBlock) int {
+				iff := core.IfOf(b)
+				if iff == nil {
+					return -1
+				}
+				bo, ok := iff.Cond.(*ssa.BinOp)
+				if !ok {
+					return -1
+				}
+				isBatchLen := func(v ssa.Value) bool {
+					c, ok := v.(*ssa.Call)
+					if !ok {
+						return false
+					}
+					bi, ok := c.Call.Value.(*ssa.Builtin)
+					return ok && bi.Name() == "len" && isStepVectorSlice(c.Call.Args[0].Type())
+				}
+				switch {
+				case bo.Op == token.LSS && isBatchLen(bo.Y), bo.Op == token.GTR && isBatchLen(bo.X):
+					return 1 // i < len(batch): the false branch is the "operand ended" skip
+				case (bo.Op == token.LEQ || bo.Op == token.EQL) && isBatchLen(bo.X) && len(b.Succs) == 2 && appendBlocks[b.Succs[0]]:
+					return 1 // if len(batch) <= step { batch = append(batch, ...) }: otherwise the step vector exists already
+				case bo.Op == token.GEQ && isBatchLen(bo.Y), bo.Op == token.LEQ && isBatchLen(bo.X):
+					return 0
+				}
+				return -1
+			}
+			seen := map[*ssa.BasicBlock]bool{h: true}
+			work := []*ssa.BasicBlock{h}
+			var skip *ssa.BasicBlock
+			for len(work) > 0 && skip == nil {
+				x := work[len(work)-1]
+				work = work[:len(work)-1]
+				if appendBlocks[x] {
+					continue
+				}
+				exempt := lenGuardFalse(x)
+				for i, s := range x.Succs {
+					if !body[s] || i == exempt {
+						continue
+					}
+					if s == h {
+						skip = x
+						break
+					}
+					if !seen[s] {
+						seen[s] = true
+						work = append(work, s)
+					}
+				}
+			}
+			if skip != nil {
+				pos := "-"
+				for _, ins := range skip.Instrs {
+					if ins.Pos().IsValid() {
+						pos = p.Pos(ins.Pos())
+					}
+				}
+				obs = append(obs, core.Ob(rule, key, p.Pos(h.Instrs[0].Pos()), core.FuncName(fn), core.Violated, "an iteration can reach the next one (through "+pos+") without appending a step vector: the output batch then has fewer step vectors than steps and every consumer that pairs batches by position reads the wrong step"))
+			} else {
+				obs = append(obs, core.Ob(rule, key, p.Pos(h.Instrs[0].Pos()), core.FuncName(fn), core.Held, "every path through an iteration appends or leaves the function"))
+			}
+		}
+	}
+	return obs
+}
+
+func sortBlocks(bs []*ssa.BasicBlock) {
+	for i := 1; i < len(bs); i++ {
+		for j := i; j > 0 && bs[j].Index < bs[j-1].Index; j-- {
+			bs[j], bs[j-1] = bs[j-1], bs[j]
+		}
+	}
+}
+
+func init() {
+	mutant(Mutant{Rule: "R-ONEPERSTEP", Name: "vector-per-series-in-partial-batch", File: "execution/scan/vector_selector.go",
+		Old: "if len(vectors) <= currStep {", New: "if len(vectors) < o.numSteps {", Expect: "vectorSelector"})
+}
+
+// ---------------------------------------------------------------------------------------------
+
+func init() {
+	register(&Rule{ID: "R-PINNEDPLAN", Min: 1, Run: rulePinnedPlan,
+		Doc: "the expression below a StepInvariantExpr (an @-pinned or otherwise step-invariant part) is planned only with the query window collapsed to a single instant (the options returned by WithEndTime), whatever its type: it is evaluated once and its result repeated, never re-evaluated per step with offsets that were computed for the query start"})
+
+	mutant(Mutant{Rule: "R-PINNEDPLAN", Name: "scalar-invariant-evaluated-per-step", File: "execution/execution.go",
+		Old:    "\t\tnext, err := newOperator(e.Expr, storage, opts.WithEndTime(opts.Start), hints)\n",
+		New:    "\t\tif e.Expr.Type() == parser.ValueTypeScalar {\n\t\t\treturn newOperator(e.Expr, storage, opts, hints)\n\t\t}\n\t\tnext, err := newOperator(e.Expr, storage, opts.WithEndTime(opts.Start), hints)\n",
+		Expect: "StepInvariantExpr"})
+}
+
+func rulePinnedPlan(p *core.Program) []core.Obligation {
+	const rule = "R-PINNEDPLAN"
+	fn := p.Func("execution", "newOperator")
+	if fn == nil {
+		return []core.Obligation{core.Ob(rule, "execution.newOperator plans below StepInvariantExpr", "-", "", core.Lost, "newOperator not found")}
+	}
+	var obs []core.Obligation
+	k := 0
+	core.EachInstr(fn, func(b *ssa.BasicBlock, i int, ins ssa.Instruction) {
+		call, ok := ins.(*ssa.Call)
+		if !ok || call.Call.StaticCallee() != fn || len(call.Call.Args) < 3 {
+			return
+		}
+		// arg0 derives from the Expr field of a *parser.StepInvariantExpr
+		fromInvariant := false
+		core.BackSlice(call.Call.Args[0], func(x ssa.Value) bool {
+			if n, f, _, ok := core.FieldRef(x); ok && n != nil && f == "Expr" && n.Obj().Name() == "StepInvariantExpr" && n.Obj().Pkg().Path() == pkgParser {
+				fromInvariant = true
+			}
+			return !fromInvariant
+		})
+		if !fromInvariant {
+			return
+		}
+		k++
+		key := fmt.Sprintf("execution.newOperator plans below StepInvariantExpr #%d with a collapsed window", k)
+		pinned := false
+		for v := range core.PhiClosure(call.Call.Args[2]) {
+			if c, ok := v.(*ssa.Call); ok && strings.HasSuffix(core.CalleeName(&c.Call), "query.Options).WithEndTime") {
+				pinned = true
+			} else {
+				pinned = false
+				break
+			}
+		}
+		if pinned {
+			obs = append(obs, core.Ob(rule, key, p.Pos(call.Pos()), "newOperator", core.Held, "the options come from WithEndTime"))
+		} else {
+			obs = append(obs, core.Ob(rule, key, p.Pos(call.Pos()), "newOperator", core.Violated, "the step-invariant expression is planned with the full query window: it is re-evaluated at every step while its selectors carry offsets computed for the first step, so the pinned value drifts and disappears after one look-back delta"))
+		}
+	})
+	return obs
+}
+
+// ---------------------------------------------------------------------------------------------
+
+func init() {
+	register(&Rule{ID: "R-ERRIDENT", Min: 2, Run: ruleErrIdent,
+		Doc: "the only errors whose identity the repository tests (errors.Is / errors.As / == on error values) are the planner's own sentinels of execution/parse ('not supported', 'not implemented'): an error that comes from the storage, from the context or from an operator is never classified, and therefore never filtered out, on its way to the query's result"})
+
+	mutant(Mutant{Rule: "R-ERRIDENT", Name: "cancelled-shard-errors-skipped", File: "execution/exchange/coalesce.go",
+		Old: "func (c errorChan) getError() error {\n\tfor err := range c {\n\t\tif err != nil {", New: "func (c errorChan) getError() error {\n\tfor err := range c {\n\t\tif errors.Is(err, context.Canceled) {\n\t\t\tcontinue\n\t\t}\n\t\tif err != nil {", Expect: "getError"})
+}
+
+func ruleErrIdent(p *core.Program) []core.Obligation {
+	const rule = "R-ERRIDENT"
+	var obs []core.Obligation
+	errT := types.Universe.Lookup("error").Type()
+	sentinels := sentinelGlobals(p)
+	isSentinel := func(v ssa.Value) bool {
+		ok := false
+		core.BackSlice(v, func(x ssa.Value) bool {
+			if g, isG := x.(*ssa.Global); isG && sentinels[g] {
+				ok = true
+			}
+			return !ok
+		})
+		return ok
+	}
+	for _, fn := range p.Funcs {
+		k := 0
+		core.EachInstr(fn, func(b *ssa.BasicBlock, i int, ins ssa.Instruction) {
+			var target ssa.Value
+			what := ""
+			switch x := ins.(type) {
+			case *ssa.Call:
+				callee := x.Call.StaticCallee()
+				if callee == nil || callee.Pkg == nil || len(x.Call.Args) != 2 {
+					return
+				}
+				path := callee.Pkg.Pkg.Path()
+				if !(path == "errors" || strings.HasSuffix(path, "/errors")) || (callee.Name() != "Is" && callee.Name() != "As") {
+					return
+				}
+				target, what = x.Call.Args[1], "errors."+callee.Name()
+			case *ssa.BinOp:
+				if (x.Op != token.EQL && x.Op != token.NEQ) || !types.Identical(x.X.Type(), errT) || !types.Identical(x.Y.Type(), errT) {
+					return
+				}
+				if core.IsNilConst(x.X) || core.IsNilConst(x.Y) {
+					return
+				}
+				target, what = x.Y, "comparison of two error values"
+				if isSentinel(x.X) {
+					target = x.X
+				}
+			default:
+				return
+			}
+			k++
+			key := fmt.Sprintf("%s tests the identity of an error #%d", core.FuncName(fn), k)
+			if isSentinel(target) {
+				obs = append(obs, core.Ob(rule, key, p.Pos(ins.Pos()), core.FuncName(fn), core.Held, what+" against a sentinel of execution/parse"))
+			} else {
+				obs = append(obs, core.Ob(rule, key, p.Pos(ins.Pos()), core.FuncName(fn), core.Violated, what+" against something other than the planner's sentinels: a run-time error (storage, context, operator) is being classified, and whatever is done on that branch instead of returning it hides a failure from the query's result"))
+			}
+		})
+	}
+	return obs
+}
+
+// ---------------------------------------------------------------------------------------------
+
+func init() {
+	register(&Rule{ID: "R-LOCKDEFER", Min: 3, Run: ruleLockDefer,
+		Doc: "a mutex that is held while code runs that can reach a user-supplied callback (storage select, series set, iterator, remote query) is released by a deferred Unlock: a panic raised by the callback is recovered further up and turned into the query's error, and a lock released only on the normal path would stay locked and hang every other goroutine of the query"})
+
+	mutant(Mutant{Rule: "R-LOCKDEFER", Name: "filtered-selector-load-under-plain-lock", File: "execution/storage/filtered_selector.go",
+		Old:  "func (f *filteredSelector) GetSeries(ctx context.Context, shard, numShards int) ([]SignedSeries, error) {\n\tvar err error\n\tf.once.Do(func() { err = f.loadSeries(ctx) })\n",
+		New:  "func (f *filteredSelector) GetSeries(ctx context.Context, shard, numShards int) ([]SignedSeries, error) {\n\tvar err error\n\tlockForLoad.Lock()\n\tf.once.Do(func() { err = f.loadSeries(ctx) })\n\tlockForLoad.Unlock()\n",
+		Old2: "type filteredSelector struct {", New2: "var lockForLoad sync.Mutex\n\ntype filteredSelector struct {",
+		Expect: "filteredSelector"})
+}
+
+func ruleLockDefer(p *core.Program) []core.Obligation {
+	const rule = "R-LOCKDEFER"
+	var obs []core.Obligation
+	isLock := func(c *ssa.CallCommon) bool {
+		n := core.CalleeName(c)
+		return n == "(*sync.Mutex).Lock" || n == "(*sync.RWMutex).Lock" || n == "(*sync.RWMutex).RLock"
+	}
+	isUnlock := func(c *ssa.CallCommon) bool {
+		n := core.CalleeName(c)
+		return n == "(*sync.Mutex).Unlock" || n == "(*sync.RWMutex).Unlock" || n == "(*sync.RWMutex).RUnlock"
+	}
+	reachCache := map[*ssa.Function]bool{}
+	reaches := func(f *ssa.Function) bool {
+		if v, ok := reachCache[f]; ok {
+			return v
+		}
+		v := reachesStorage(p, f)
+		reachCache[f] = v
+		return v
+	}
+	for _, fn := range p.Funcs {
+		k := 0
+		core.EachInstr(fn, func(b *ssa.BasicBlock, i int, ins ssa.Instruction) {
+			call, ok := ins.(*ssa.Call)
+			if !ok || !isLock(&call.Call) || len(call.Call.Args) != 1 {
+				return
+			}
+			k++
+			m := call.Call.Args[0]
+			key := fmt.Sprintf("%s holds a mutex #%d", core.FuncName(fn), k)
+			// released by a defer?
+			deferred := false
+			core.EachInstr(fn, func(_ *ssa.BasicBlock, _ int, x ssa.Instruction) {
+				if d, ok := x.(*ssa.Defer); ok && isUnlock(&d.Call) && len(d.Call.Args) == 1 && (d.Call.Args[0] == m || core.SameExpr(d.Call.Args[0], m)) {
+					deferred = true
+				}
+			})
+			if deferred {
+				obs = append(obs, core.Ob(rule, key, p.Pos(call.Pos()), core.FuncName(fn), core.Held, "released by a deferred Unlock"))
+				return
+			}
+			// the critical section: everything reachable from the Lock before an Unlock of the same mutex
+			var witness string
+			seen := map[*ssa.BasicBlock]bool{}
+			var scan func(bb *ssa.BasicBlock, from int)
+			scan = func(bb *ssa.BasicBlock, from int) {
+				for _, x := range bb.Instrs[from:] {
+					if cc := core.CallCommon(x); cc != nil {
+						if isUnlock(cc) && len(cc.Args) == 1 && (cc.Args[0] == m || core.SameExpr(cc.Args[0], m)) {
+							return
+						}
+						if _, ok := callbackSite(x); ok {
+							witness = p.Pos(x.Pos())
+						}
+						for _, callee := range callees(p, x) {
+							if p.InRepo(callee) && reaches(callee) {
+								witness = p.Pos(x.Pos()) + " -> " + core.FuncName(callee)
+							}
+						}
+					}
+					if mc, ok := x.(*ssa.MakeClosure); ok && !onlyGoUse(mc) {
+						if cf, ok := mc.Fn.(*ssa.Function); ok && reaches(cf) {
+							witness = p.Pos(x.Pos()) + " -> " + core.FuncName(cf)
+						}
+					}
+				}
+				for _, s := range bb.Succs {
+					if !seen[s] {
+						seen[s] = true
+						scan(s, 0)
+					}
+				}
+			}
+			scan(b, i+1)
+			if witness != "" {
+				obs = append(obs, core.Ob(rule, key, p.Pos(call.Pos()), core.FuncName(fn), core.Violated, "the mutex is held across "+witness+", which can reach a storage callback, and is released by a plain Unlock: a panic there (recovered further up) leaves it locked"))
+			} else {
+				obs = append(obs, core.Ob(rule, key, p.Pos(call.Pos()), core.FuncName(fn), core.Held, "no user callback is reachable while the mutex is held"))
+			}
+		})
+	}
+	return obs
+}
+
+// ---------------------------------------------------------------------------------------------
+
+func init() {
+	register(&Rule{ID: "R-CANCELLOCK", Min: 2, Run: ruleCancelLock,
+		Doc: "Cancel() and Close() of a query never wait for a mutex that another method holds while the query is being evaluated (a critical section from which the storage is reachable): they must be able to cancel a running Exec from another goroutine, so the only lock they take is one that Exec holds for a few statements"})
+
+	mutant(Mutant{Rule: "R-CANCELLOCK", Name: "close-waits-for-exec", File: "engine/engine.go",
+		Old:  "func (q *compatibilityQuery) Exec(ctx context.Context) (ret *promql.Result) {\n",
+		New:  "func (q *compatibilityQuery) Exec(ctx context.Context) (ret *promql.Result) {\n\tq.cancelMtx.Lock()\n\tdefer q.cancelMtx.Unlock()\n",
+		Old2: "\tq.cancelMtx.Lock()\n\tq.cancel = cancel\n\tq.cancelMtx.Unlock()\n", New2: "\tq.cancel = cancel\n",
+		Expect: "Cancel"})
+}
+
+func mutexField(v ssa.Value) *types.Var {
+	if fa, ok := v.(*ssa.FieldAddr); ok {
+		return fieldVarOf(fa)
+	}
+	return nil
+}
+
+func ruleCancelLock(p *core.Program) []core.Obligation {
+	const rule = "R-CANCELLOCK"
+	var obs []core.Obligation
+	isLock := func(c *ssa.CallCommon) bool {
+		n := core.CalleeName(c)
+		return n == "(*sync.Mutex).Lock" || n == "(*sync.RWMutex).Lock" || n == "(*sync.RWMutex).RLock"
+	}
+	isUnlock := func(c *ssa.CallCommon) bool {
+		n := core.CalleeName(c)
+		return n == "(*sync.Mutex).Unlock" || n == "(*sync.RWMutex).Unlock" || n == "(*sync.RWMutex).RUnlock"
+	}
+	// mutex fields held across an evaluation
+	longHeld := map[*types.Var]string{}
+	for _, fn := range p.Funcs {
+		core.EachInstr(fn, func(b *ssa.BasicBlock, i int, ins ssa.Instruction) {
+			call, ok := ins.(*ssa.Call)
+			if !ok || !isLock(&call.Call) || len(call.Call.Args) != 1 {
+				return
+			}
+			f := mutexField(call.Call.Args[0])
+			if f == nil {
+				return
+			}
+			deferred := false
+			core.EachInstr(fn, func(_ *ssa.BasicBlock, _ int, x ssa.Instruction) {
+				if d, ok := x.(*ssa.Defer); ok && isUnlock(&d.Call) && len(d.Call.Args) == 1 && mutexField(d.Call.Args[0]) == f {
+					deferred = true
+				}
+			})
+			seen := map[*ssa.BasicBlock]bool{}
+			long := false
+			var scan func(bb *ssa.BasicBlock, from int)
+			scan = func(bb *ssa.BasicBlock, from int) {
+				for _, x := range bb.Instrs[from:] {
+					if cc := core.CallCommon(x); cc != nil {
+						if !deferred && isUnlock(cc) && len(cc.Args) == 1 && mutexField(cc.Args[0]) == f {
+							return
+						}
+						if _, ok := callbackSite(x); ok {
+							long = true
+						}
+						for _, callee := range callees(p, x) {
+							if p.InRepo(callee) && reachesStorage(p, callee) {
+								long = true
+							}
+						}
+					}
+				}
+				for _, s := range bb.Succs {
+					if !seen[s] {
+						seen[s] = true
+						scan(s, 0)
+					}
+				}
+			}
+			scan(b, i+1)
+			if long {
+				longHeld[f] = core.FuncName(fn)
+			}
+		})
+	}
+	for _, fn := range p.Funcs {
+		if fn.Parent() != nil || (fn.Name() != "Cancel" && fn.Name() != "Close") || recvNamed(fn) == nil || core.Rel(fn.Pkg.Pkg.Path()) != "engine" {
+			continue
+		}
+		key := core.FuncName(fn) + " does not wait for a running evaluation"
+		bad := ""
+		for f := range syncReach(p, fn, nil) {
+			core.EachInstr(f, func(_ *ssa.BasicBlock, _ int, ins ssa.Instruction) {
+				if call, ok := ins.(*ssa.Call); ok && isLock(&call.Call) && len(call.Call.Args) == 1 {
+					if mf := mutexField(call.Call.Args[0]); mf != nil {
+						if holder, ok := longHeld[mf]; ok {
+							bad = fmt.Sprintf("locks %s at %s, which %s holds while the query is evaluated", mf.Name(), p.Pos(call.Pos()), holder)
+						}
+					}
+				}
+			})
+		}
+		if bad != "" {
+			obs = append(obs, core.Ob(rule, key, p.Pos(fn.Pos()), core.FuncName(fn), core.Violated, bad+": called from another goroutine it blocks until Exec has finished instead of cancelling it"))
+		} else {
+			obs = append(obs, core.Ob(rule, key, p.Pos(fn.Pos()), core.FuncName(fn), core.Held, "takes no lock that is held across an evaluation"))
+		}
+	}
+	return obs
+}
+
+// ---------------------------------------------------------------------------------------------
+
+func init() {
+	register(&Rule{ID: "R-ONEBATCHSIZE", Min: 1, Run: ruleOneBatchSize,
+		Doc: "one batch size per plan: every value stored into query.Options.StepsBatch is the package constant execution.stepsBatch, the same constant every operator constructor receives. Operators pair the batches of their operands by position and size their per-step state by it, so an operator emitting larger batches breaks its consumers"})
+
+	mutant(Mutant{Rule: "R-ONEBATCHSIZE", Name: "remote-result-in-one-batch", File: "execution/remote/operator.go",
+		Old: "\tremoteOpts.LookbackDelta = 0\n", New: "\tremoteOpts.LookbackDelta = 0\n\tremoteOpts.StepsBatch = 1 << 30\n", Expect: "NewExecution"})
+}
+
+func ruleOneBatchSize(p *core.Program) []core.Obligation {
+	const rule = "R-ONEBATCHSIZE"
+	var obs []core.Obligation
+	var want int64 = -1
+	if pk := p.Pkg("execution"); pk != nil {
+		if c, ok := pk.Types.Scope().Lookup("stepsBatch").(*types.Const); ok {
+			if v, ok := constantInt64(c); ok {
+				want = v
+			}
+		}
+	}
+	if want < 0 {
+		return []core.Obligation{core.Ob(rule, "execution.stepsBatch", "-", "", core.Lost, "constant not found")}
+	}
+	for _, fn := range p.Funcs {
+		k := 0
+		core.EachInstr(fn, func(b *ssa.BasicBlock, i int, ins ssa.Instruction) {
+			st, ok := ins.(*ssa.Store)
+			if !ok || !core.IsFieldOf(st.Addr, core.Module+"/query", "Options", "StepsBatch") {
+				return
+			}
+			k++
+			key := fmt.Sprintf("%s sets Options.StepsBatch #%d", core.FuncName(fn), k)
+			v := st.Val
+			if cv, ok := v.(*ssa.Convert); ok {
+				v = cv.X
+			}
+			if c, ok := core.ConstInt(v); ok && c == want {
+				obs = append(obs, core.Ob(rule, key, p.Pos(st.Pos()), core.FuncName(fn), core.Held, "the package constant stepsBatch"))
+			} else {
+				obs = append(obs, core.Ob(rule, key, p.Pos(st.Pos()), core.FuncName(fn), core.Violated, fmt.Sprintf("a batch size other than the plan-wide constant stepsBatch (%d) is configured: this operator's batches no longer line up with those of its siblings and exceed the per-step state of its consumers", want)))
+			}
+		})
+	}
+	return obs
+}
+
+func constantInt64(c *types.Const) (int64, bool) {
+	s := c.Val().ExactString()
+	var v int64
+	if _, err := fmt.Sscanf(s, "%d", &v); err != nil {
+		return 0, false
+	}
+	return v, true
+}
+
+// ---------------------------------------------------------------------------------------------
+
+func init() {
+	register(&Rule{ID: "R-CURSORRESET", Min: 2, Run: ruleCursorReset,
+		Doc: "in the selectors' nested loops (series outside, steps inside) the timestamp cursor advanced by the step loop starts afresh for every series: it is not carried from one series to the next (no loop-carried value of the outer loop feeds it). Otherwise only the first series of a shard is evaluated at the batch's own timestamps, and results depend on how series are distributed over shards"})
+
+	mutant(Mutant{Rule: "R-CURSORRESET", Name: "series-cursor-hoisted", File: "execution/scan/matrix_selector.go",
+		Old: "\tfor i := 0; i < len(o.scanners); i++ {\n\t\tvar (\n\t\t\tseries   = o.scanners[i]\n\t\t\tseriesTs = ts\n\t\t)\n", New: "\tseriesTs := ts\n\tfor i := 0; i < len(o.scanners); i++ {\n\t\tvar (\n\t\t\tseries = o.scanners[i]\n\t\t)\n", Expect: "matrixSelector"})
+}
+
+func ruleCursorReset(p *core.Program) []core.Obligation {
+	const rule = "R-CURSORRESET"
+	var obs []core.Obligation
+	for _, fn := range p.Funcs {
+		if fn.Name() != "Next" || fn.Parent() != nil || core.Rel(fn.Pkg.Pkg.Path()) != "execution/scan" {
+			continue
+		}
+		loops := core.LoopBodies(fn)
+		depth := core.LoopDepth(fn)
+		k := 0
+		var headers []*ssa.BasicBlock
+		for h := range loops {
+			headers = append(headers, h)
+		}
+		sortBlocks(headers)
+		for _, inner := range headers {
+			if depth[inner] != 2 {
+				continue
+			}
+			// the enclosing loop
+			var outer *ssa.BasicBlock
+			for _, h := range headers {
+				if h != inner && depth[h] == 1 && loops[h][inner] {
+					outer = h
+				}
+			}
+			if outer == nil {
+				continue
+			}
+			for _, ins := range inner.Instrs {
+				ph, ok := ins.(*ssa.Phi)
+				if !ok || !isInt64Basic(ph.Type()) {
+					continue
+				}
+				// advanced inside the inner loop by an addition
+				advanced := false
+				var init []ssa.Value
+				for i, e := range ph.Edges {
+					pred := inner.Preds[i]
+					if loops[inner][pred] {
+						if bo, ok := e.(*ssa.BinOp); ok && bo.Op == token.ADD {
+							advanced = true
+						}
+					} else {
+						init = append(init, e)
+					}
+				}
+				if !advanced || len(init) == 0 {
+					continue
+				}
+				k++
+				key := fmt.Sprintf("%s step cursor #%d starts afresh for every series", core.FuncName(fn), k)
+				carried := false
+				for _, v := range init {
+					core.BackSlice(v, func(x ssa.Value) bool {
+						if op, ok := x.(*ssa.Phi); ok && op.Block() == outer {
+							// a value carried around the outer loop that is (transitively) fed by this cursor
+							for _, e := range op.Edges {
+								core.BackSlice(e, func(y ssa.Value) bool {
+									if y == ph {
+										carried = true
+									}
+									return !carried
+								})
+							}
+						}
+						return !carried
+					})
+				}
+				if carried {
+					obs = append(obs, core.Ob(rule, key, p.Pos(ph.Pos()), core.FuncName(fn), core.Violated, "the cursor the step loop advances is carried over to the next series: the second series of a shard starts where the first one stopped and its samples land in the wrong step vectors"))
+				} else {
+					obs = append(obs, core.Ob(rule, key, p.Pos(ph.Pos()), core.FuncName(fn), core.Held, "initialised from a value that does not depend on the previous series' iterations"))
+				}
+			}
+		}
+	}
+	return obs
+}
+
+// ---------------------------------------------------------------------------------------------
+
+func init() {
+	register(&Rule{ID: "R-COPYWRITE", Min: 3, Run: ruleCopyWrite,
+		Doc: "no lost update through a copy: a store into a field of a local struct variable is followed, on some path and before the variable is overwritten as a whole, by a use of that variable (a read, a copy back into the slice or map it came from, a call). Otherwise the update was made to a copy of a slice element or map value and is lost (`last := buckets[i]; last.count += x`)"})
+
+	mutant(Mutant{Rule: "R-COPYWRITE", Name: "bucket-count-added-to-a-copy", File: "execution/function/quantile.go",
+		Old: "\tlast := buckets[0]\n\ti := 0\n\tfor _, b := range buckets[1:] {\n\t\tif b.upperBound == last.upperBound {\n\t\t\tlast.count += b.count\n\t\t} else {\n\t\t\tbuckets[i] = last\n\t\t\tlast = b\n\t\t\ti++\n\t\t}\n\t}\n\tbuckets[i] = last\n",
+		New: "\ti := 0\n\tfor _, b := range buckets[1:] {\n\t\tlast := buckets[i]\n\t\tif b.upperBound == last.upperBound {\n\t\t\tlast.count += b.count\n\t\t\tcontinue\n\t\t}\n\t\ti++\n\t\tbuckets[i] = b\n\t}\n", Expect: "coalesceBuckets"})
+}
+
+func ruleCopyWrite(p *core.Program) []core.Obligation {
+	const rule = "R-COPYWRITE"
+	var obs []core.Obligation
+	for _, fn := range p.Funcs {
+		k := 0
+		core.EachInstr(fn, func(b *ssa.BasicBlock, i int, ins ssa.Instruction) {
+			st, ok := ins.(*ssa.Store)
+			if !ok {
+				return
+			}
+			fa, ok := st.Addr.(*ssa.FieldAddr)
+			if !ok {
+				return
+			}
+			a, ok := fa.X.(*ssa.Alloc)
+			if !ok || a.Heap {
+				return
+			}
+			if _, isStruct := a.Type().Underlying().(*types.Pointer).Elem().Underlying().(*types.Struct); !isStruct {
+				return
+			}
+			k++
+			key := fmt.Sprintf("%s updates a field of local %s #%d", core.FuncName(fn), a.Comment, k)
+			// uses of the variable: anything but stores into it (whole or field) and the field addresses themselves
+			isUse := func(x ssa.Instruction) bool {
+				switch y := x.(type) {
+				case *ssa.UnOp:
+					if y.Op == token.MUL {
+						if y.X == a {
+							return true
+						}
+						if f2, ok := y.X.(*ssa.FieldAddr); ok && f2.X == a {
+							return true
+						}
+					}
+				case *ssa.Store:
+					// storing the variable's address or value elsewhere
+					if y.Val == a {
+						return true
+					}
+				case *ssa.DebugRef:
+					return false
+				default:
+					// the address handed to a call, a closure, a conversion ...
+					for _, op := range x.Operands(nil) {
+						if op != nil && *op == a {
+							if _, isFA := x.(*ssa.FieldAddr); !isFA {
+								return true
+							}
+						}
+					}
+				}
+				return false
+			}
+			kills := func(x ssa.Instruction) bool {
+				s2, ok := x.(*ssa.Store)
+				return ok && s2.Addr == a
+			}
+			// field addresses escaping (passed to calls) count as uses too
+			escapes := false
+			for _, r := range core.Referrers(a) {
+				if f2, ok := r.(*ssa.FieldAddr); ok {
+					for _, rr := range core.Referrers(f2) {
+						switch z := rr.(type) {
+						case *ssa.Store:
+							if z.Val == f2 {
+								escapes = true
+							}
+						case *ssa.UnOp, *ssa.DebugRef:
+						case *ssa.FieldAddr, *ssa.IndexAddr:
+							// nested addressing: be conservative
+							escapes = true
+						default:
+							escapes = true
+						}
+					}
+				}
+			}
+			if escapes {
+				obs = append(obs, core.Ob(rule, key, p.Pos(st.Pos()), core.FuncName(fn), core.Held, "the field's address is handed on"))
+				return
+			}
+			found := false
+			seen := map[*ssa.BasicBlock]bool{}
+			var scan func(bb *ssa.BasicBlock, from int)
+			scan = func(bb *ssa.BasicBlock, from int) {
+				for _, x := range bb.Instrs[from:] {
+					if found {
+						return
+					}
+					if isUse(x) {
+						found = true
+						return
+					}
+					if kills(x) {
+						return
+					}
+				}
+				for _, s := range bb.Succs {
+					if !seen[s] {
+						seen[s] = true
+						scan(s, 0)
+					}
+				}
+			}
+			scan(b, i+1)
+			if found {
+				obs = append(obs, core.Ob(rule, key, p.Pos(st.Pos()), core.FuncName(fn), core.Held, "the variable is used afterwards"))
+			} else {
+				obs = append(obs, core.Ob(rule, key, p.Pos(st.Pos()), core.FuncName(fn), core.Violated, "after this field update the variable is never used again before it is overwritten: the update went into a copy and is lost"))
+			}
+		})
+	}
+	return obs
+}
+
+// ---------------------------------------------------------------------------------------------
+
+// scalarOperandFields: operator fields that hold a *scalar* operand. A scalar without a value is NaN
+// for the reference engine; it never ends the stream of the operator that consumes it.
+var scalarOperandFields = map[string]string{
+	"scalarOperator.scalar": "the scalar side of a vector/scalar binary operation",
+	"aggregate.paramOp":     "the parameter of quantile",
+	"kAggregate.paramOp":    "the parameter k of topk/bottomk",
+}
+
+func init() {
+	register(&Rule{ID: "R-SCALAREND", Min: 3, Run: ruleScalarEnd,
+		Doc: "the batch of a scalar operand (scalar side of a binary operation, aggregation parameter) never decides the end of the consumer's stream: no `return nil, nil` of Next is taken on a branch that tests that batch for nil or for its length. A scalar that has no value at a step (scalar() of nothing) is NaN, not the end of the query"})
+
+	mutant(Mutant{Rule: "R-SCALAREND", Name: "missing-scalar-ends-the-stream", File: "execution/binary/scalar.go",
+		Old: "\tout := o.pool.GetVectorBatch()\n\tfor v, vector := range in {", New: "\tif scalarIn == nil {\n\t\to.next.GetPool().PutVectors(in)\n\t\treturn nil, nil\n\t}\n\n\tout := o.pool.GetVectorBatch()\n\tfor v, vector := range in {", Expect: "scalarOperator"})
+}
+
+func ruleScalarEnd(p *core.Program) []core.Obligation {
+	const rule = "R-SCALAREND"
+	var obs []core.Obligation
+	found := map[string]bool{}
+	for _, fn := range p.Funcs {
+		if fn.Name() != "Next" || fn.Parent() != nil {
+			continue
+		}
+		rn := recvNamed(fn)
+		if rn == nil {
+			continue
+		}
+		core.EachInstr(fn, func(b *ssa.BasicBlock, i int, ins ssa.Instruction) {
+			call, ok := ins.(*ssa.Call)
+			if !ok || !call.Call.IsInvoke() || call.Call.Method.Name() != "Next" || !isVectorOperatorIface(call.Call.Value.Type()) {
+				return
+			}
+			addr := core.Deref(call.Call.Value)
+			if addr == nil {
+				return
+			}
+			n, f, _, ok := core.FieldRef(addr)
+			if !ok || n == nil {
+				return
+			}
+			fieldKey := n.Obj().Name() + "." + f
+			if _, isScalar := scalarOperandFields[fieldKey]; !isScalar {
+				return
+			}
+			found[fieldKey] = true
+			key := fmt.Sprintf("%s: the batch of %s never ends the stream", core.FuncName(fn), fieldKey)
+			// the batch value
+			var batch ssa.Value
+			for _, r := range core.Referrers(call) {
+				if ex, ok := r.(*ssa.Extract); ok && ex.Index == 0 {
+					batch = ex
+				}
+			}
+			if batch == nil {
+				obs = append(obs, core.Ob(rule, key, p.Pos(call.Pos()), core.FuncName(fn), core.Held, "the batch is not used"))
+				return
+			}
+			dependsOnBatch := func(v ssa.Value) bool {
+				hit := false
+				core.BackSlice(v, func(x ssa.Value) bool {
+					if x == batch {
+						hit = true
+					}
+					if _, isCall := x.(*ssa.Call); isCall {
+						if c := x.(*ssa.Call); c.Call.Value != nil {
+							if bi, ok := c.Call.Value.(*ssa.Builtin); !ok || bi.Name() != "len" {
+								return false
+							}
+						}
+					}
+					return !hit
+				})
+				return hit
+			}
+			bad := ""
+			for _, bb := range fn.Blocks {
+				iff := core.IfOf(bb)
+				if iff == nil || !dependsOnBatch(iff.Cond) {
+					continue
+				}
+				core.EachInstr(fn, func(rb *ssa.BasicBlock, _ int, x ssa.Instruction) {
+					ret, ok := x.(*ssa.Return)
+					if !ok || rb == fn.Recover {
+						return
+					}
+					rs := core.RetResults(ret)
+					if len(rs) != 2 || !core.IsNilConst(rs[0]) || !core.IsNilConst(rs[1]) {
+						return
+					}
+					for s := 0; s < 2; s++ {
+						if core.BranchDominates(bb, s, rb) {
+							bad = p.Pos(ret.Pos())
+						}
+					}
+				})
+			}
+			if bad != "" {
+				obs = append(obs, core.Ob(rule, key, p.Pos(call.Pos()), core.FuncName(fn), core.Violated, "the end-of-stream return at "+bad+" is taken on a branch that tests the scalar operand's batch ("+scalarOperandFields[fieldKey]+"): a scalar without a value ends the query where the reference computes with NaN"))
+			} else {
+				obs = append(obs, core.Ob(rule, key, p.Pos(call.Pos()), core.FuncName(fn), core.Held, "no end-of-stream return depends on that batch"))
+			}
+		})
+	}
+	for f := range scalarOperandFields {
+		if !found[f] {
+			obs = append(obs, core.Ob(rule, "scalar operand "+f, "-", "", core.Lost, "no Next pulls from this field any more"))
+		}
 	}
 	return obs
 }
